@@ -469,6 +469,28 @@ fn lead_text(style: &Style) -> &'static str {
 fn render_seg(seg: &Seg, style: &Style, second_file: bool) -> String {
     match seg {
         Seg::Verbatim(t) => t.clone(),
+        Seg::Synth { name, ver, lead, broken } if style.shape == 2 => {
+            // mutually recursive functions: a calls b and b calls a (whichever exists); never inlined, so the call
+            // cycle survives to the gas analysis
+            let other = if name == "a" { "b" } else { "a" };
+            let callee = if second_file { format!("super::{other}") } else { other.to_string() };
+            let mut head = format!("#[inline(never)]\nfn {name}(n: felt252) -> felt252 {{\n");
+            let mut body = if *ver == 1 {
+                format!("    if n == 0 {{\n        1\n    }} else {{\n        {callee}(n - 1) + 1\n    }}\n")
+            } else {
+                format!("    let z = 5;\n    if n == 0 {{\n        z\n    }} else {{\n        {callee}(n - 1) + z\n    }}\n")
+            };
+            let mut tail = "}\n";
+            if *broken {
+                match style.brk {
+                    0 => body = format!("    let x = ;\n{body}"),
+                    1 => tail = "\n",
+                    2 => head = format!("#[inline(never)]\nfn {name}) -> felt252 {{\n"),
+                    _ => head = format!("#[inline(never)]\nfn {name}(n: felt252) -> felt252\n"),
+                }
+            }
+            format!("{}{head}{body}{tail}", if *lead { lead_text(style) } else { "" })
+        }
         Seg::Synth { name, ver, lead, broken } if style.shape == 1 => {
             let pre = if second_file { "super::" } else { "" };
             let mut head = format!("impl Impl{} of {pre}Shape<{pre}S> {{\n    fn area(self: {pre}S) -> felt252 {{\n", name.to_uppercase());
@@ -846,7 +868,7 @@ fn main() {
                     let style = if v == 0 && matches!(p, Project::Synth) {
                         Style { trivia: rng.below(2) as u8, brk: 0, shape: 0 }
                     } else {
-                        let shape = if matches!(p, Project::Synth) { rng.below(2) as u8 } else { 0 };
+                        let shape = if matches!(p, Project::Synth) { rng.below(3) as u8 } else { 0 };
                         Style { trivia: rng.below(3) as u8, brk: rng.below(4) as u8, shape }
                     };
                     let with_expect = matches!(p, Project::Synth) && style.canonical();
